@@ -229,6 +229,9 @@ def Buffer.needFlush (b : Buffer) : Bool := decide (b.data.length > b.cap * 2 / 
 /-- `reset()` -/
 def Buffer.reset (b : Buffer) : Buffer := { b with data := [], begin := 0 }
 
+/-- `fill_buf` up to the inner call: `if all_done { reset }` -/
+def Buffer.prep (b : Buffer) : Buffer := if b.allDone then b.reset else b
+
 /-- `advance(amount)`: `assert!(begin + amount <= capacity)`, then `slice(pos..)` asserts
 `pos <= len`. `none` = panic. -/
 def Buffer.advance (b : Buffer) (amount : Nat) : Option Buffer :=
